@@ -12,6 +12,11 @@ func reformatDescription(input string, maxWidth int) []string {
 	lastWasEmpty := false
 	for idx, line := range lines {
 
+		if strings.TrimSpace(line) == "" && pend == "" && len(linesOut) == 0 {
+			// leading empty lines carry nothing
+			continue
+		}
+
 		if idx > 0 && strings.TrimSpace(line) == "" {
 			if pend != "" {
 				linesOut = append(linesOut, pend)
